@@ -370,7 +370,9 @@ func c12Unit(w *core.WorkerCtx, rng *rand.Rand, rounds int) {
 		for _, m := range net.Pending() {
 			if m.To == adv {
 				net.Deliver(m)
-				got = m
+				if m.Item == it.hash {
+					got = m // (a late message of the warm-up item may be in flight too)
+				}
 			}
 		}
 		if got == nil {
